@@ -108,7 +108,11 @@ def finish(ctx: Ctx, started: float, stats: dict[str, int], *, seed: int = 0, em
     replay_paths: list[str] = []
     if new and emit:
         OUT_DIR.mkdir(exist_ok=True)
+    MAX_REPORTED = 12
     for i, o in enumerate(new):
+        if i >= MAX_REPORTED:
+            lines.append(f"  ... and {len(new) - MAX_REPORTED} more violations of {ctx.prop} (all listed in the evidence file)")
+            break
         path = OUT_DIR / f"{ctx.prop}-{o.rule}-{i}.json"
         if emit:
             path.write_text(
